@@ -676,6 +676,30 @@ class FHInterp(Interp):
         return res
 
     def _for_inner(self, node, st, frame):
+        # a loop over a short literal tuple / list of constants is unrolled (a dispatch table walked in order)
+        itv = self.ev(node.iter, st, frame)
+        if isinstance(itv, Tup) and 0 < len(itv.items) <= 8 and all(isinstance(x, (K, Lin)) for x in itv.items) \
+                and isinstance(node.iter, (ast.Tuple, ast.List)):
+            live, done, broken = [st], [], []
+            for item in itv.items:
+                nxt = []
+                for s in live:
+                    s2 = s.copy()
+                    self.assign(node.target, item, s2, frame)
+                    for s3, o in self.block(node.body, s2, frame):
+                        if o[0] in ("fall", "continue"):
+                            nxt.append(s3)
+                        elif o[0] == "break":
+                            broken.append(s3)
+                        else:
+                            done.append((s3, o))
+                live = nxt
+                if len(live) + len(done) > self.max_states:
+                    return Interp._for(self, node, st, frame)
+            out = list(done)
+            for s in live:
+                out += self.block(node.orelse, s, frame) if node.orelse else [(s, ("fall",))]
+            return out + [(s, ("fall",)) for s in broken]
         return Interp._for(self, node, st, frame)
 
     def _note_list_growth(self, call, args, st, frame):
@@ -886,6 +910,8 @@ class FHInterp(Interp):
             return K(r) if r is not None else Opq("isinstance", args)
         if ext == "builtins.type" and len(args) == 1:
             return Opq("type", args)
+        if ext == "builtins.getattr" and len(args) == 2 and isinstance(args[1], K) and isinstance(args[1].v, str):
+            return self.getattr(args[0], args[1].v, call, st, frame)
         if ext == "builtins.bool" and len(args) == 1 and (isinstance(args[0], K) or (
                 isinstance(args[0], Opq) and args[0].tag.startswith(("cmp:", "or", "and", "not")))):
             return args[0]  # truth value of a comparison
@@ -998,6 +1024,20 @@ class Raised(tuple):
 class Returned(list):
     """Returning traces [(state, value)] of a run; ``raises`` are the raising traces of the same run."""
     raises = ()
+
+
+def rejected_inputs(records, input_symbols):
+    """[(conditions, raise node)] for raising traces whose *whole* assumed path condition is a set of affine facts over
+    the given input symbols: exactly those inputs are rejected although sibling traces accept."""
+    out = []
+    for facts, node in records:
+        if facts is None:
+            continue
+        assumed = [f for f, o in facts.items if str(o).startswith(("guard", "negated guard", "truthy", "falsy", "negated equality"))]
+        cond = [f for f in assumed if f.symbols() and f.symbols() <= set(input_symbols)]
+        if cond and len(cond) == len(assumed) and not any(repr(cond) == repr(c) for c, _ in out):
+            out.append((cond, node))
+    return out
 
 
 def rejects_for_sure(raises):
